@@ -211,7 +211,8 @@ def process_period(mp_stream: models.MultiPeriodStream,
             models.db.session.add(adp)
     for pk in unused_tracks:
         adp = models.AdaptationSet.get(pk=pk)
-        models.db.session.delete(adp)
+        if adp is not None:
+            models.db.session.delete(adp)
     return None
 
 
